@@ -443,11 +443,16 @@ func engineDeterminism(ctx *Ctx) {
 			}
 			ctx.R.Path("search-evaluations", int64(reps+len(fresh)+len(procAns)))
 			// suggestions
-			if ci%2 == 0 {
+			if ci%2 == 0 || N > 15000 {
 				ctx.R.Guard("C02", "GetSuggestions", cs, func() {
 					s0 := db.GetSuggestions(c.SQ, 5)
 					bad := false
-					for i := 0; i < reps && !bad; i++ {
+					sreps := reps
+					if N > 15000 {
+						sreps = 24 // (a vocabulary of this size: whatever is sampled, cut or ordered by chance shows within two dozen calls)
+						ctx.R.Path("suggestion-calls-on-a-huge-vocabulary", int64(sreps))
+					}
+					for i := 0; i < sreps && !bad; i++ {
 						if s := db.GetSuggestions(c.SQ, 5); !reflect.DeepEqual(s0, s) {
 							ctx.R.Violate(vlib.Violation{Property: "C02", Clause: "suggestions-repeat-call", Path: "GetSuggestions",
 								Detail: "suggestions differ between calls", Witness: map[string]interface{}{"case": cs, "a": s0, "b": s}})
